@@ -1,5 +1,6 @@
 import SimbodyModel.Proto
 import SimbodyModel.C16
+import SimbodyModel.C18
 /-!
 Driver for C16 (`flow='harness_first'`): replays the histories the harness generated (`I …` lines) on the model
 `C16.St`, with the force elements instantiated from the table `Gen.table` that is regenerated from the source on
@@ -9,10 +10,82 @@ force its `calcForce` call count, and at `check` records whether the totals diff
 -/
 open Proto C16 C16.Gen
 
+/-! ### bridge to the C18 model
+
+The matter subsystem's five lazy entries are also run on the *C18* State model (`SimbodyModel/C18.lean`): one
+subsystem, the entries allocated with exactly the prerequisites of `Gen.matterEntries`, one discrete variable per
+invalidated stage 2..7, q/u/z pools; every C16 operation is translated into the State-level calls the library makes.
+After every record the stage and the five `isCacheValueRealized` answers of the C18 model must equal the C16 model's
+(`mvalid`) — otherwise the O line carries `BRIDGE-MISMATCH`, which the correspondence check reports.  This is an
+executed cross-check on every generated history, not a proof. -/
+structure Bridge where
+  b : C18.St := {}
+  ok : Bool := true        -- every translated call was legal and did not throw in the C18 model
+
+def Bridge.app (br : Bridge) (op : C18.SOp) : Bridge :=
+  { b := C18.stepS br.b op, ok := br.ok && C18.legalS br.b op && (C18.excOf br.b op).isNone }
+
+def meIdx (e : ME) : Nat := match e with | .pk => 0 | .cbi => 1 | .abi => 2 | .vk => 3 | .abv => 4
+
+def Bridge.valid (br : Bridge) (e : ME) : Bool := br.b.isRealized (0, meIdx e)
+
+def Bridge.ensure (br : Bridge) (e : ME) : Bridge := if br.valid e then br else br.app (.mark 0 (meIdx e))
+
+/-- `System::realize` up to stage g -/
+def Bridge.realize (br : Bridge) (g : Nat) : Bridge :=
+  (List.range 10).foldl (fun br k =>
+    if br.b.sys < k ∧ k ≤ g then
+      let br := if k == 2 then ((br.app (.allocQ 0 [0])).app (.allocU 0 [0])).app (.allocZ 0 [0]) else br
+      let br := if k == 5 then br.ensure .pk else br
+      let br := if k == 6 then br.ensure .vk else br
+      let br := if k == 8 then (br.ensure .abi).ensure .abv else br
+      (br.app (.advSub 0 k)).app (.advSys k)
+    else br) br
+
+def Bridge.fresh : Bridge :=
+  let br : Bridge := { b := { subs := [{}] } }
+  -- realizeTopology: one discrete variable per invalidated stage 2..7, then the entries of Gen.matterEntries
+  let br := (List.range 6).foldl (fun br i => br.app (.allocDV 0 (i + 2) 0)) br
+  let br := Gen.matterEntries.foldl (fun br (e : Gen.MEntry) =>
+    let pre := e.pre.filterMap (fun n => (Gen.matterEntries.findIdx? (fun x => x.name == n)).map (fun i => ((0, i) : C18.Key)))
+    br.app (.allocCEpre 0 e.dep e.comp e.q e.u e.z [] pre 0)) br
+  br.realize 2
+
+/-- a variable invalidating stage g changed -/
+def Bridge.inval (br : Bridge) (g v : Nat) : Bridge :=
+  if 2 ≤ g ∧ g ≤ 7 then br.app (.setDV 0 (g - 2) (Int.ofNat v)) else { br with ok := false }
+
+def Bridge.step (br : Bridge) (fs : List Force) (st : St) : Op → Bridge
+  | .setT v => br.app (.setTime (Int.ofNat v))
+  | .setQ _ => br.app (.updQ none)
+  | .setU _ => br.app (.updU none)
+  | .setZ _ => br.app (.updZ none)
+  | .setParam i j v =>
+    match ((fs.getD i default).paramStages)[j]? with
+    | some g => if (fs.getD i default).gravity then br else br.inval g v
+    | none => br
+  | .setEnabled _ _ => br.inval 3 0
+  | .gravSet i _ v _ _ => if (fs.getD i default).gravity then br.inval 7 v else br
+  | .realize g => br.realize (min g 9)
+  | .gravQuery _ | .peQuery => br
+  | .setInst v => br.inval 3 v
+  | .setOpt v => br.inval 2 v
+  | .mRealize e => if legal fs st (.mRealize e) then br.ensure e else br
+  | .mInvalidate e =>
+    let br := if e.comp ≤ 9 then br.app (.invalCache e.comp) else br
+    br.app (.unmark 0 (meIdx e))
+
 structure Sim where
   fs : List Force := []
   custom : List Bool := []      -- which elements are Custom probes
   st : St := {}
+  br : Bridge := {}
+
+def Sim.bridgeStr (s : Sim) : String :=
+  let agree := s.br.ok && s.br.b.sys == s.st.stage && ME.all.all (fun e => s.br.valid e == s.st.mvalid e)
+  if agree then "" else
+    " BRIDGE-MISMATCH(c18: ok=" ++ toString s.br.ok ++ s!" stage={s.br.b.sys} m=" ++
+      String.join (ME.all.map (fun e => if s.br.valid e then "1" else "0")) ++ ")"
 
 def obsStr (s : Sim) : String :=
   let parts := (List.range s.fs.length).filterMap (fun i =>
@@ -22,7 +95,7 @@ def obsStr (s : Sim) : String :=
     else if s.custom.getD i false then some s!" c{i}={s.st.calls.getD i 0}"
     else none)
   let mflags := String.join (ME.all.map (fun e => if s.st.mvalid e then "1" else "0"))
-  s!"{s.st.stage}" ++ String.join parts ++ s!" m={mflags}"
+  s!"{s.st.stage}" ++ String.join parts ++ s!" m={mflags}" ++ s.bridgeStr
 
 /-- `Class` or `Class@g`: a user-written (`Force::Custom`) element with a state parameter of its own invalidating stage g -/
 def findClass (name : String) : Option FClass :=
@@ -40,7 +113,7 @@ def parseModel (toks : List String) : Option Sim :=
       match k with
       | 0 =>
         let ps := fs.map (fun f => f.paramStages.map (fun _ => 0))
-        some { fs := fs, custom := cu, st := fresh fs { params := ps, enabled := en, zeroMag := ze } }
+        some { fs := fs, custom := cu, st := fresh fs { params := ps, enabled := en, zeroMag := ze }, br := Bridge.fresh }
       | k + 1 =>
         match r with
         | cls :: c :: e :: z :: r' =>
@@ -86,7 +159,8 @@ def doCheck (s : Sim) : Sim × Bool :=
   let st1 := step s.fs (s.st.realize s.fs 8) (.mRealize .cbi)     -- the comparison also asks for composite-body inertias
   let f0 := fresh s.fs st1.vars
   let f1 := ({ f0 with calls := st1.calls, evals := st1.evals } : St).realize s.fs 8
-  ({ s with st := { st1 with calls := f1.calls, evals := f1.evals } }, st1.total != f1.total)
+  let br1 := (s.br.realize 8).step s.fs (s.st.realize s.fs 8) (.mRealize .cbi)
+  ({ s with st := { st1 with calls := f1.calls, evals := f1.evals }, br := br1 }, st1.total != f1.total)
 
 def main : IO UInt32 := do
   let lines ← readStdinLines
@@ -108,7 +182,7 @@ def main : IO UInt32 := do
       out.putStrLn ln.trimAscii.toString
       match parseOp rest with
       | some op =>
-        sim := { sim with st := step sim.fs sim.st op }
+        sim := { sim with st := step sim.fs sim.st op, br := sim.br.step sim.fs sim.st op }
         out.putStrLn ("O obs " ++ obsStr sim)
       | none => out.putStrLn "O obs ERR:unknown-op"
     | _ => pure ()
